@@ -2,6 +2,7 @@
 // the process-wide constants in a fixed order, and the observation projection of unified nodes.
 #ifndef VERIF_WORLD_HPP
 #define VERIF_WORLD_HPP
+#include <algorithm>
 #include <cstring>
 #include <map>
 #include <string>
@@ -24,6 +25,42 @@ namespace vh {
 
    inline std::string word(ipr::util::word_view w) { return std::string(reinterpret_cast<const char*>(w.data()), w.size()); }
    inline std::u8string u8(const std::string& s) { return std::u8string(reinterpret_cast<const char8_t*>(s.data()), s.size()); }
+   // ---- the edge of a string storage block -----------------------------------------------------------------
+   // Words are kept in storage blocks that a Lexicon obtains one after the other.  Histories that start right before the end
+   // of a block put their own words on both sides of the change of block.  Nothing is assumed about block sizes: a fresh
+   // Lexicon is fed 1000-byte words until the address of a word stops following its predecessor's (measured once per process);
+   // `to_edge` then feeds a Lexicon one word less than that, and `slack` eight-byte words, which leaves less than a thousand
+   // bytes of the block.  If no change of block is seen within 20000 words, `to_edge` does nothing.
+   inline std::u8string filler_word(int k, std::size_t n)
+   {
+      std::string w = "~fill" + std::to_string(k) + "~";
+      while (w.size() < n) w += static_cast<char>('a' + (w.size() * 7 + static_cast<std::size_t>(k)) % 26);
+      w.resize(std::max(n, w.find('~', 1) + 1));
+      return u8(w);
+   }
+   inline int words_per_block()
+   {
+      static const int k = [] {
+         ipr::impl::Lexicon lx;
+         const char8_t* prev = nullptr;
+         for (int i = 0; i < 20000; ++i) {
+            auto p = lx.get_string(filler_word(i, 1000)).characters().data();
+            if (prev != nullptr and (p < prev or p - prev > 4000)) return i;
+            prev = p;
+         }
+         return 0;
+      }();
+      return k;
+   }
+   inline bool to_edge(ipr::impl::Lexicon& lx, int slack)
+   {
+      int k = words_per_block();
+      if (k <= 1) return false;
+      for (int i = 0; i < k; ++i) lx.get_string(filler_word(i, 1000));
+      for (int j = 0; j < slack; ++j) lx.get_string(u8("~t" + std::to_string(j)));
+      return true;
+   }
+
    inline std::string hex(std::string_view s)
    {
       static const char d[] = "0123456789abcdef";
